@@ -5,7 +5,8 @@ from props import hc_common as H
 from gen_hc import Sim, Net, pick_cfg, random_traffic, pick_len, F
 
 PROP = "C04"
-LAKE_TARGETS = ["Uflow.Props.C04", "uflow_driver"]
+LAKE_TARGETS = ["Uflow.Props.C04", "Uflow.Props.C04Sys", "uflow_driver"]
+PROPS_FILES = ["C04", "C04Sys"]
 TRUSTED_BASE = [
     "Lean 4.33 kernel; axioms per theorem under coverage.axioms (propext, Classical.choice, Quot.sound)",
     "tools/extract_consts.py (MAX_FRAGMENT_SIZE, MAX_FRAME_SIZE, header sizes, MAX_PACKET_SIZE)",
